@@ -6,7 +6,7 @@ LEVEL = 'exploration'
 SHARDS = {'quick': 2, 'thorough': 16}
 BUDGET = {'quick': 60, 'thorough': 600}
 RULE = ('merge/embed/mask/forwards/partial retrieval over the universe extended with default values and annotation values '
-        'drawn per parameter from three-element pools (agreement and disagreement both frequent) and random expression '
+        'drawn per parameter from three-element pools (agreement and disagreement both frequent), coming from functions, classes, callable instances and plain inspect.Signature objects, and random expression '
         'trees; the monitor recomputes, for every result parameter, the input parameters it stands for (same name; for '
         'positional ones also the same index) and checks optionality, default, annotation, kind restriction, relative '
         'order, outer-before-inner and the dropped-default rule. Non-trivial: a merge parameter with >= 2 contributors, any '
